@@ -481,7 +481,7 @@ func init() {
 				}
 				c.Nontrivial(fmt.Sprint("legacy:", vals))
 			}
-			c.Dist(fmt.Sprintf("document/legacy-len-%d-%s", n, strings.SplitN(got, "0", 2)[0][:min(2, len(strings.SplitN(got, "0", 2)[0]))]))
+			c.Dist(fmt.Sprintf("document/legacy-len-%d-%s", n, st))
 		}})
 		x.Add(&Family{Name: "wire-field", Quick: 90, Thor: 400, Run: func(c *Case) {
 			var b hotline.AccessBitmap
